@@ -8,6 +8,7 @@ import impl
 
 PID = "C18"
 LEAN_MODULES = ["BtcHd.Props.C18"]
+LEAN_MODULES_THOROUGH = ['BtcHd.Props.TrBip32']
 TRUSTED_BASE = common.CORE_TRUSTED + [
     "the PRF is a parameter: the theorems are quantified over every 64-byte output; on the real code the corners "
     "are reached by substituting bip32.hmac_sha512 / bip85.hmac_sha512 from outside"]
